@@ -155,7 +155,8 @@ Record resources := { r_pools : list pool_cr; r_l2 : list l2_cr; r_bgp : list bg
                       r_peers : list opaque_cr; r_bfds : list opaque_cr; r_comms : list opaque_cr }.
 
 (* ------------------------------------------------------------------ parsed configuration *)
-Record salloc := { sa_prio : N; sa_nss : list N; sa_nsel : N }.
+(* sa_sels: ServiceAllocation.ServiceSelectors (matchLabels requirements; [] = Everything) *)
+Record salloc := { sa_prio : N; sa_nss : list N; sa_sels : list sel }.
 Record l2adv := { la_nodes : list N; la_ifaces : list N; la_all : bool }.
 Record bgpadv := { ba_name : N; ba_agg4 : N; ba_agg6 : N; ba_lp : N; ba_comms : list N;
                    ba_nodes : list N; ba_peers : list N }.
@@ -173,13 +174,13 @@ Definition parse_alloc (nss : list ns_cr) (a : option alloc_cr) : option (option
   | Some a =>
       if negb (nodupb (al_nss a)) then None
       else match al_nss a, al_nssels a, al_svcsels a with
-           | [], [], [] => Some (Some {| sa_prio := al_prio a; sa_nss := []; sa_nsel := 1 |})
+           | [], [], [] => Some (Some {| sa_prio := al_prio a; sa_nss := []; sa_sels := [[]] |})
            | _, _, _ =>
                if sels_nodup (al_nssels a) && sels_nodup (al_svcsels a) then
                  Some (Some {| sa_prio := al_prio a;
                                sa_nss := setN (al_nss a ++ map ns_name
                                             (filter (fun n => matches_any (al_nssels a) (ns_labels n)) nss));
-                               sa_nsel := N.of_nat (length (al_svcsels a)) |})
+                               sa_sels := al_svcsels a |})
                else None
            end
   end.
@@ -347,7 +348,7 @@ Fixpoint set_bgp (crs : list pool_cr) (nodes : list node_cr) (advs : list bgp_cr
   end.
 
 Definition pool_nss (p : pool) : list N := match p_alloc p with Some a => sa_nss a | None => [] end.
-Definition has_sel (p : pool) : bool := match p_alloc p with Some a => negb (sa_nsel a =? 0) | None => false end.
+Definition has_sel (p : pool) : bool := match p_alloc p with Some a => match sa_sels a with [] => false | _ => true end | None => false end.
 
 (* poolsByNamespace after fix F2 (each list sorted).  [order] = the map iteration order. *)
 Definition by_namespace (order : list pool) : list (N * list N) :=
